@@ -15,8 +15,10 @@ for n in "${names[@]}"; do
   if ! git -C "$wt" apply "$d/patch.diff" 2>/dev/null; then echo "$n: PATCH DOES NOT APPLY"; git -C "$REPO_DIR" worktree remove --force "$wt"; continue; fi
   prop="$(python3 -c "import json;print(json.load(open('$d/meta.json'))['property'])" 2>/dev/null)"
   OUT="$(mktemp -d /tmp/hsverif-self.XXXXXX)"; cp "$HERE/known_findings.json" "$OUT/"
-  fired="$("$HERE/bin/hsverif" matrix -repo "$wt" -root "$OUT" 2>/dev/null | sed -n 's/^FIRING://p')"
+  mout="$("$HERE/bin/hsverif" matrix -v -repo "$wt" -root "$OUT" 2>/dev/null)"
+  fired="$(echo "$mout" | sed -n 's/^FIRING://p')"
+  rules="$(echo "$mout" | sed -n -E 's/^(C[0-9]{2}) (VIOLATED|UNDECIDED|ANCHOR-UNRESOLVED) ([^ ]+) .*/\1:\3/p' | sort -u | tr '\n' ' ')"
   own="MISSED"; case " $fired " in *" $prop "*) own="caught";; esac
-  echo "$n: breaks $prop -> $own by own check; all firing checks:${fired:- none}"
+  echo "$n: breaks $prop -> $own by own check; all firing checks:${fired:- none}; rules: $rules"
   rm -rf "$OUT"; git -C "$REPO_DIR" worktree remove --force "$wt"
 done
